@@ -583,6 +583,9 @@ pub struct OutCfg {
     pub inbound: u8,
     /// the application may close the sink at any point (C08)
     pub may_close: bool,
+    /// the peer may (once) send something that ends the connection on an error path: undecodable bytes,
+    /// a protocol-violating packet, a DISCONNECT (C08)
+    pub inbound_faults: bool,
 }
 
 pub const J_WINDOW: u32 = 1;
@@ -663,6 +666,7 @@ pub struct Out {
     /// correct acks the peer wrote: (sender, type, id)
     pub good_acks: Vec<(Option<usize>, u8, u16)>,
     pub inbound_sent: u8,
+    pub fault_sent: bool,
     pub closed_by_app: bool,
 }
 
@@ -1204,6 +1208,7 @@ impl Scenario for Out {
                 unjudged: None,
                 good_acks: Vec::new(),
                 inbound_sent: 0,
+                fault_sent: false,
                 closed_by_app: false,
                 cfg,
             }
@@ -1261,6 +1266,11 @@ impl Scenario for Out {
                 v.push(Ev::Inbound(0));
             }
             v.push(Ev::Inbound(1));
+        }
+        if self.cfg.inbound_faults && !self.fault_sent {
+            v.push(Ev::Inbound(2));
+            v.push(Ev::Inbound(3));
+            v.push(Ev::Inbound(4));
         }
         if self.cfg.may_close && !self.closed_by_app {
             v.push(Ev::Close);
@@ -1366,6 +1376,23 @@ impl Scenario for Out {
                 };
                 if let Some(w) = w {
                     w.wake();
+                }
+            }
+            Ev::Inbound(k) if k >= 2 => {
+                self.fault_sent = true;
+                match k {
+                    // undecodable bytes (reserved packet type 0)
+                    2 => self.conn.send_raw(&[0x00, 0x00]),
+                    // a well-formed packet that violates the protocol: a second CONNECT / a CONNACK out of place
+                    3 => {
+                        if self.cfg.ep.role == Role::Server {
+                            let ver = self.conn.ver();
+                            self.conn.send(&rf::connect(ver, "again", 0, vec![]));
+                        } else {
+                            self.conn.send(&Pkt::ConnAck { session_present: false, code: 0, props: vec![] });
+                        }
+                    }
+                    _ => self.conn.send(&Pkt::Disconnect { code: None, props: None }),
                 }
             }
             Ev::Inbound(k) => {
